@@ -9,6 +9,7 @@ CONSTANTS
   Confs <- ConfsAll
   Stores <- StoresEnv2
   Ancs <- AncsAll
+  SrcPorts <- SrcPortsTwo
   RestoreAtTop = TRUE
 CONSTRAINTS EnvSecond
 INVARIANTS ReplyIffValid ExactlyOne ToSender ReplyHeader NeverAnswersReply BoundedTraffic HistoryIndependence StoreSane
